@@ -579,12 +579,47 @@ def _ordering(ctx, model, E):
         mem = model.lookup(E, name)         # (follows class-body aliases)
         ok = False
         if mem is not None and mem.kind == "func":
-            pss = summarize(mem.node, node_param=False)
-            ok = bool(pss) and all(
-                ps.term == "raise" and ps.retval is not None
-                and ps.retval[0] == "call" and _is_typeerror(
-                    model, E.module, ps.retval[1])
-                for ps in pss)
+            # (a module-level helper that raises is read as its body)
+            def always_raises_typeerror(fn_, depth=0):
+                pss_ = summarize(fn_, node_param=False)
+                if not pss_:
+                    return False
+                for ps in pss_:
+                    if ps.term == "raise" and ps.retval is not None and \
+                            ps.retval[0] == "call" and _is_typeerror(
+                                model, E.module, ps.retval[1]):
+                        continue
+                    # ... or ends in a call of a module-level helper that
+                    # always does
+                    last = ps.items[-2][1] if len(ps.items) >= 2 else None
+                    callee = None
+                    # (the summaries spell an inlined raising helper as
+                    # __raises__(<exception>))
+                    if isinstance(last, ast.Expr) and isinstance(
+                            last.value, ast.Call) and isinstance(
+                            last.value.func, ast.Name) and \
+                            last.value.func.id == "__raises__" and \
+                            last.value.args and isinstance(
+                                last.value.args[0], ast.Call) and \
+                            _is_typeerror(model, E.module, ast.unparse(
+                                last.value.args[0].func)):
+                        continue
+                    if isinstance(last, ast.Expr) and isinstance(
+                            last.value, ast.Call) and isinstance(
+                            last.value.func, ast.Name):
+                        callee = last.value.func.id
+                    elif isinstance(last, ast.Return) and isinstance(
+                            last.value, ast.Call) and isinstance(
+                            last.value.func, ast.Name):
+                        callee = last.value.func.id
+                    key = f"{E.module.name}:{callee}"
+                    if depth < 3 and callee and key in model.functions and \
+                            always_raises_typeerror(model.functions[key][1],
+                                                    depth + 1):
+                        continue
+                    return False
+                return True
+            ok = always_raises_typeerror(mem.node)
         ctx.ob(f"P/Expression.{name}/raises-typeerror", ok, E.loc(),
                "ordering comparison raises TypeError" if ok else
                f"Expression.{name} does not unconditionally raise TypeError: "
@@ -687,8 +722,12 @@ def _constructors(ctx, model, E):
            "Expression.__getitem__ has no path building Subscript(self, "
            "subscript)")
     mem = E.members.get("attr")
-    ok = all(ps.retval == ("call", "Lookup", (S, ("param", "name")), ())
-             for ps in summarize(mem.node, node_param=False))
+    # (a refusal of a name that is no string builds nothing)
+    pss_attr = [ps for ps in summarize(mem.node, node_param=False)
+                if ps.term != "raise"]
+    ok = bool(pss_attr) and all(
+        ps.retval == ("call", "Lookup", (S, ("param", "name")), ())
+        for ps in pss_attr)
     ctx.ob("E/Expression.attr", ok, E.loc(), "attr builds Lookup(self, name)")
     mem = E.members.get("__abs__")
     ok = all(ps.retval == ("call", "Call", (
